@@ -99,10 +99,17 @@ def cli_flush_part(ck, tier):
             if not ok:
                 ck.fail("flush-cli:final-output-invalid", f"{what}: the finished output ({len(out)} bytes) does not decode to the input", rj); continue
             # at every expired timeout: what was written before the next read must already contain everything read so far
-            rd = wr = 0; pending = None
+            rd = wr = 0; pending = None; since = 0; expect_poll = False
             for o, name, fd, a, r, f in calls:
+                if expect_poll:
+                    # the writer paused although xz has taken input that is not flushed yet: the timer must be armed (a finite poll timeout)
+                    expect_poll = False
+                    if since > 0 and not (name == "poll" and a >= 0) and not fmt_lzma:
+                        ck.fail("flush-cli:timer-not-armed", f"{what}: input stalls after {rd} bytes ({since} since the last flush) but xz waits without a timeout ({name} a={a}): what it holds is never flushed", rj)
+                if name == "read" and fd == 0 and f == "eagain":
+                    expect_poll = True
                 if name == "poll" and f == "tmo" and r == 0:
-                    pending = rd
+                    pending = rd; since = 0
                 elif name == "read" and fd == 0:
                     if pending is not None:
                         fired += 1; ck.add("flush_points")
@@ -111,7 +118,7 @@ def cli_flush_part(ck, tier):
                             ck.fail("flush-cli:not-flushed-at-timeout", f"{what}: when the timeout expired after {pending} input bytes, {wr} bytes had been written: {why}", rj)
                         pending = None
                     if r > 0:
-                        rd += r
+                        rd += r; since += r
                 elif name in ("write", "pwrite") and fd == 1 and r > 0:
                     wr += r
         if not fired:
